@@ -57,6 +57,9 @@ struct makedumpfile_data_header {
 
 #define ALLOC_INC	32
 
+/** Maximum value of an @c off_t. */
+#define OFF_T_MAX	((off_t)(((unsigned long long) ~(off_t)0) >> 1))
+
 /** Initialize flattened dump maps for one file.
  * @param fmap  Flattened format mapping to be initialized.
  * @param ctx   Dump file object.
@@ -107,7 +110,8 @@ flatmap_file_init(struct flattened_file_map *fmap, kdump_ctx_t *ctx,
 					 "offset", pos,
 					 (unsigned long long) flatpos);
 		size = be64toh(hdr.buf_size);
-		if (size <= 0)
+		if (size <= 0 ||
+		    size > OFF_T_MAX - flatpos - (off_t) sizeof(hdr))
 			return set_error(ctx, KDUMP_ERR_CORRUPT,
 					 "Wrong flattened %s %"PRId64" at %llu",
 					 "segment size", size,
